@@ -669,7 +669,9 @@ func vC01DescentCase(rnd *rand.Rand, tr *vC01Trace, caseNo int) {
 			goFail = which + ": AD on a reply that is not authentic up to the anchor"
 		}
 		// a reply the client reads as an answer or as a denial: NOERROR (data or NODATA), NXDOMAIN, or any records at all
-		if !cd && chainSecure && !genuine && len(x.anchors) > 0 && (len(oe.out.Answer) > 0 || len(oe.out.Ns) > 0 || oe.out.Rcode == dns.RcodeNameError || oe.out.Rcode == dns.RcodeSuccess) {
+		// (the answer to an RRSIG question is by design not verifiable — signatures are not signed — and comes back
+		// without AD: what it holds is outside this oracle as long as AD stays clear)
+		if !cd && chainSecure && !genuine && len(x.anchors) > 0 && (qtype != dns.TypeRRSIG || oe.out.AuthenticatedData) && (len(oe.out.Answer) > 0 || len(oe.out.Ns) > 0 || oe.out.Rcode == dns.RcodeNameError || oe.out.Rcode == dns.RcodeSuccess) {
 			goFail = which + ": altered data accepted under a signed chain"
 		}
 		if !cd && chainSecure && genuine && plain && qtype != dns.TypeRRSIG && len(x.anchors) > 0 && !oe.out.AuthenticatedData {
@@ -681,8 +683,8 @@ func vC01DescentCase(rnd *rand.Rand, tr *vC01Trace, caseNo int) {
 	}
 	// "a zone is treated as unsigned only on a validated proof": a cut the parent delegates with a signed DS RRset, below a
 	// chain that is secure down to the parent, whose referral was not touched, is never filed with an EMPTY DS set
-	emptySecureCut := false
-	if !cd && len(x.anchors) > 0 && (genuineAll || finalOnly) {
+	emptySecureCut := false // observed: a cut that is secure in truth sits in the delegation cache with an empty DS set
+	if !cd && len(x.anchors) > 0 {
 		for _, zz := range x.zones[1:] {
 			if zz.cut == "secure" && !x.insecureAbove(zz) {
 				if v, filed := cacheDesc[zz.name]; filed && v != nil {
@@ -693,7 +695,7 @@ func vC01DescentCase(rnd *rand.Rand, tr *vC01Trace, caseNo int) {
 			}
 		}
 	}
-	if emptySecureCut && goFail == "" {
+	if emptySecureCut && (genuineAll || finalOnly) && goFail == "" {
 		goFail = "a secure delegation was filed with an empty DS set: the zone is treated as unsigned without a proof"
 	}
 	desc := map[string]any{"world": kinds, "qname": qname, "qtype": dns.TypeToString[qtype], "cd": cd, "served_first": servedDesc(tr1), "served_again": servedDesc(tr2),
